@@ -846,10 +846,10 @@ def main():
         seen.add(v['key'])
         uniq.append(v)
     C.emit({'evaluations': n, 'distinct_nontrivial': distinct, 'rule': fn.__doc__ or {
-        'C05': 'all sequences (<=3 quick / <=4 thorough, sampled longer) over 18 gpg status line kinds x exit 0/1/2 with a stub gpg; GNUPGHOME isolation; --require-signed-manifest',
-        'C14': 'sign option x originally signed x key id x gpg signing failure x sub-Manifest format x odd file names with a stub gpg',
-        'C16': 'random directory trees with 1..2 directory symlinks (self/parent/ancestor/sibling/mutual), IGNORE on the link, verify/update/unregistered scan under a 20 s watchdog; faked st_dev per directory/file',
-        'C17': 'content lengths 0..40 (0..300 thorough) and around 64 KiB / 1 MiB x size hints x read schedules (1 byte, random, full) for all available algorithms; get_file_metadata on real files of 0, 1, 64 KiB, 1 MiB+1 bytes with name lists all / reversed / single / random subsets / a name requested twice',
+        'C05': 'all sequences (<=3 quick / <=4 thorough, sampled longer; every 7th / 5th of them is run) over 20 gpg status line kinds (two with status-like text inside the user id) x exit 0/1/2 with a stub gpg, plus named sequences; GNUPGHOME isolation with and without a proxy; --require-signed-manifest through the CLI, also combined with -P',
+        'C14': 'sign option x originally signed x key id x gpg signing ok / failing / failing after partial output x sub-Manifest format x odd file names with a stub gpg; a signed compressed top-level Manifest renamed by the save',
+        'C16': 'random directory trees with 1..2 directory symlinks (self/parent/ancestor/sibling/mutual), IGNORE on the link, verify/update/unregistered scan under a 20 s watchdog; faked st_dev per directory / file / sub-Manifest file for verify, update, create and the single-path APIs',
+        'C17': 'content lengths 0..40 (0..300 thorough) and around 64 KiB / 1 MiB x size hints x read schedules (1 byte, random, full) for all available algorithms; get_file_metadata on real files of 0, 1, 64 KiB, 1 MiB+1 bytes with name lists all / reversed / single / random subsets / a name requested twice; size-only and single-algorithm requests with every kind of hint',
     }.get(prop, ''), 'samples': samples[:3], 'violations': uniq, 'all_violation_count': len(viol), 'wall_s': time.time() - t0})
 
 
